@@ -370,11 +370,40 @@ func (w *world) do(op map[string]J) (res map[string]J) {
 	case "build":
 		lib := w.lib(get("lib"))
 		rb := builder.NewRuleBuilder(lib)
-		err := rb.BuildRuleFromResource(kbName, kbVer, pkg.NewBytesResource([]byte(get("text"))))
+		var err error
+		func() {
+			defer func() {
+				if r := recover(); r != nil {
+					res["panic"] = fmt.Sprint(r)
+					err = fmt.Errorf("panic: %v", r)
+				}
+			}()
+			err = rb.BuildRuleFromResource(kbName, kbVer, pkg.NewBytesResource([]byte(get("text"))))
+		}()
 		res["ok"] = err == nil
 		if err != nil {
 			if rep, ok := err.(*pkg.GruleErrorReporter); ok {
 				res["nerr"] = len(rep.Errors)
+				kinds := map[string]int{}
+				for _, e := range rep.Errors {
+					m := e.Error()
+					switch {
+					case strings.Contains(m, "token recognition error"):
+						kinds["lex"]++
+					case strings.HasPrefix(m, "grl error on"):
+						kinds["syntax"]++
+					default:
+						kinds["other"]++
+					}
+				}
+				res["errkinds"] = kinds
+				if op["errtext"] == true {
+					ms := []string{}
+					for _, e := range rep.Errors {
+						ms = append(ms, e.Error())
+					}
+					res["errtext"] = ms
+				}
 			} else {
 				res["nerr"] = -1
 			}
